@@ -73,9 +73,8 @@ def run(tier, replay_file=None):
     h3, _ = gen.histories("Server", dict(consts('{"i1","i2"}', 4, '{"D16b_no_replay","D15_compress_lossy"}', '{"Start","SaveState","Crash","Begin","Step","Metrics"}', kv='{0,2}', sv='{0}', scen='{"base"}',
                                                 timeouts='{3}', ticks='{1}'), Compress="TRUE"), 5 if quick else 6)
     h3 = [h for h in h3 if any(x["op"] == "Crash" for x in h)]
-    if quick:
-        import random as _r
-        h3 = _r.Random(common.seed()).sample(h3, min(len(h3), 300))
+    import random as _r
+    h3 = _r.Random(common.seed()).sample(h3, min(len(h3), 300 if quick else 15000))       # (75 219 such histories of length 6)
     R.cov["compressing_adapter_histories"] = len(h3)
     for hist in h3:
         known = []
